@@ -1243,6 +1243,11 @@ impl Broker {
 
         self.channels.insert(cookie, channel);
 
+        #[cfg(feature = "statistics")]
+        {
+            self.statistics.num_channels = self.statistics.num_channels.saturating_add(1);
+        }
+
         send!(
             self,
             conn,
@@ -1251,11 +1256,6 @@ impl Broker {
                 cookie,
             },
         )?;
-
-        #[cfg(feature = "statistics")]
-        {
-            self.statistics.num_channels = self.statistics.num_channels.saturating_add(1);
-        }
 
         Ok(())
     }
